@@ -37,7 +37,8 @@ CLAIMED["C01"] = dict(
          "interleaving because they constrain the only code that launches or marks components done; the rx delivery "
          "order of notifications is not modelled."
          " Final states are assigned directly only for the stages a restart skipped; a subject that is being finished does not satisfy an observer's dependency."
-         " A one-shot iterator (graph.predecessors(..) etc.) is consumed at most once per binding in the controller. One observed known finding (a subject failing between the decision and the launch) is listed.",
+         " A one-shot iterator (graph.predecessors(..) etc.) is consumed at most once per binding in the controller. One observed known finding (a subject failing between the decision and the launch) is listed."
+         " The 'is repeating' flag of the producer/subject partition is read from the component's isRepeat attribute (the engine factory's notion), or is the constant False.",
     technique="call-site enumeration (who-may-call), CFG edge-dominance, finite truth table of filter predicates, "
               "single-writer and lock-scope lint",
     design="3/C01")
@@ -54,7 +55,8 @@ CLAIMED["C02"] = dict(
          "or in a rule-violating state; does not explore interleavings."
          " Every component that is stopped by finishedCheck has an observer first (the gate is exactly 'not staged in')."
          " The first final state of a component stays: finish() assigns or schedules a final state only when none of FINISHED/FAILED/SHUTDOWN is set yet. One reproduced race (a stop within ~5 s after a restart) is listed as an observed known finding - it is not decided statically."
-         " Outside finish() the controller never replaces a final state: a transient controllerState is set only where none is set and undone only where it is still there. A second observed known finding (ordering-dependent final state of a repeating observer) is listed.",
+         " Outside finish() the controller never replaces a final state: a transient controllerState is set only where none is set and undone only where it is still there. A second observed known finding (ordering-dependent final state of a repeating observer) is listed."
+         " The resubmission test that decides 'unrecoverable' is strict against the documented cap 5 (shared with C12).",
     technique="statement CFG with handler/finally modelling: must-pass-through, per-path call counting, branch-table "
               "recognition",
     design="3/C02")
@@ -69,7 +71,8 @@ CLAIMED["C12"] = dict(
          "ComponentState.restart / RepeatingEngine.restart, and final state after a refused restart. With the counting "
          "argument on the loop-free restart function this bounds restarts for every exit-reason sequence and hook outcome."
          " A relaunch starts from reset per-execution fields; the repeating engine's single restart respects maxRestarts; every caller of _restartComponent gives a final state for every refusal code."
-         " The subject that Engine.__init__ subscribes the kill-before-run handler to is re-created only when the engine is dead; the restart hook's call is enclosed by handlers for Exception and SystemExit; the repeating engine's restart also needs the reason to be listed in restartHookOn.",
+         " The subject that Engine.__init__ subscribes the kill-before-run handler to is re-created only when the engine is dead; the restart hook's call is enclosed by handlers for Exception and SystemExit; the repeating engine's restart also needs the reason to be listed in restartHookOn."
+         " The reason handed to component.restart() in the post-mortem path is the exit reason the controller's guards tested, never a substituted constant.",
     technique="CFG edge-dominance, reaching definitions, value-class product reachability, linear comparison "
               "normalisation, who-may-write",
     design="3/C12")
@@ -85,7 +88,8 @@ CLAIMED["C13"] = dict(
          "latency) cannot be bounded statically and is not claimed."
          " The success test of the decision reads the task generated in the same pass and never a None."
          " The cutoff of the new-output test is the recorded launch time of the previous execution (or a min including it); 'no retries left' holds for every non-positive counter."
-         " The producers-finished stream is built from the producer components' notifyFinished (not the engines'); the flag is snapshotted before the new-output test of the pass. Two observed known findings are listed.",
+         " The producers-finished stream is built from the producer components' notifyFinished (not the engines'); the flag is snapshotted before the new-output test of the pass. Two observed known findings are listed."
+         " Inside canConsume no test of producer output is reachable after a store of a non-False value into the sticky flag.",
     technique="CFG edge-dominance and must-pass-through, path-consistent product reachability over stable flags, "
               "reaching definitions of the snapshot, who-may-write",
     design="3/C13")
@@ -140,7 +144,8 @@ CLAIMED["C19"] = dict(
          "only under a None-identity test). "
          "Value equality after a full round trip is not decided."
          " The option tables are static (accessors stateless and fresh, no in-place mutation); writer converters change the case of boolean constants only; the parser neither interpolates nor validates '%'."
-         " Optional [Output] keys are written only when not None; the writer emits one stage file per index because the reader requires 0..N-1.",
+         " Optional [Output] keys are written only when not None; the writer emits one stage file per index because the reader requires 0..N-1."
+         " A handler's default replaces only a value whose own look-up failed (no raising statement follows the look-up in the try body); optional [Status] keys are written only when not None.",
     technique="writer/reader table extraction from dict/lambda literals and an if/elif chain, set comparison",
     design="3/C19")
 
@@ -151,7 +156,8 @@ CLAIMED["C14"] = dict(
          "persisted object; plus escape/unescape agreement (same keys, inverse codecs, one key=value line, split on "
          "the first '='). Decides the write discipline for all crash points at once; byte-level outcomes per crash "
          "point and fidelity of unescaped fields are not decided. Four genuine defects were repaired by fix: commits."
-         " On reload the value of an escaped key is not normalised (strip/lower), and the listing output.json is derived from is parsed without %-interpolation.",
+         " On reload the value of an escaped key is not normalised (strip/lower), and the listing output.json is derived from is parsed without %-interpolation."
+         " No handler nested inside the write block swallows an I/O error around the writes.",
     technique="write-open/rename pairing on the CFG (temp-then-rename, rename-on-success-only), purity lint of "
               "serialisers, codec table agreement",
     design="3/C14")
@@ -165,7 +171,8 @@ CLAIMED["C15"] = dict(
          "processes is not run, networkx-internal ordering is an assumption."
          " No function of the load-path modules stores a mutable object into class-level state; de-duplication of variable files keeps the last occurrence."
          " A loop that re-keys a mapping under a normalised key iterates in sorted order."
-         " No function of the load path writes into a module-level list/dict/set.",
+         " No function of the load path writes into a module-level list/dict/set."
+         " A search loop over a mapping view returns one verdict; re-keying under a function of the key (also through pop) iterates in sorted order; the order-taint scope includes dosini.py.",
     technique="intra-procedural order-taint (set-typedness inference + sink classification) with a frozen exemption table",
     design="3/C15")
 
@@ -252,7 +259,8 @@ CLAIMED["C07"] = dict(
          "(abstract interpretation of the dictionary layering). Equality of resolved configurations after a reload is not decided."
          " The store function writes and publishes on every normal return (no silent early return)."
          " Folder discovery on reload follows the symbolic links that deployment creates."
-         " No function of the load path writes into a module-level memo (the loader parses the stored file on every load); default injection tests the key it sets.",
+         " No function of the load path writes into a module-level memo (the loader parses the stored file on every load); default injection tests the key it sets."
+         " The user's variables are re-applied to the stage variables of every platform of the description (shared with C04.R4).",
     technique="writer/schema key-set agreement, CFG edge-dominance and statement-order (must-pass-through) checks, "
               "abstract interpretation of dict layering over a finite membership domain (sibling agreement)",
     design="3/C07")
@@ -268,7 +276,8 @@ CLAIMED["C11"] = dict(
          "recording catch-all; the undefined-variable detector is strict (C04.R5/R8 analysis re-used). Implicit exceptions outside try blocks and front-end work before this loader are outside "
          "the model; acceptance => usability for all documents is not decided."
          " The merge hands every key of the component document to the closed-schema check (novel keys are copied whatever their value)."
-         " The class-level tables that decide whether a name is a folder or a component are never mutated in place (shared with C09).",
+         " The class-level tables that decide whether a name is a folder or a component are never mutated in place (shared with C09)."
+         " A failed type conversion is swallowed only under ignore_convert_errors or under a test implying a non-empty list of unresolved variables; the inverted guard of FlowIR.validate's per-component validation is a rule-decided known finding.",
     technique="explicit-raise escape analysis over a name-resolved call graph, call-graph reachability of detectors, "
               "table agreement, CFG must-pass-through",
     design="3/C11")
@@ -302,7 +311,8 @@ CLAIMED["C20"] = dict(
          "the sum test looks at the parsed weights themselves (no per-weight truncation), compares with 1 under a tolerance finer than "
          "the fallback resolution and sends a nan sum to the replaced side; a malformed weight is handled as missing; the monitor's "
          "positional weight list is filled in stage order."
-         " Every write of the set the stage selectors read is under the lock; a malformed weight is replaced in the status report too; the loader maps the keys of the status report to stage indices as the status monitor does.",
+         " Every write of the set the stage selectors read is under the lock; a malformed weight is replaced in the status report too; the loader maps the keys of the status report to stage indices as the status monitor does."
+         " A key-less sorted() counts as stage order only over numeric indices; the replacement writes are preceded by a loop that gives every stage its own dictionary.",
     technique="guard-existence and edge-dominance on the CFG, symbolic shape of the replacement numerators, constant agreement, "
               "sibling cross-check of the two normalisation sites",
     design="3/C20")
